@@ -57,7 +57,11 @@ def build(spec):
     if k == 'f':
         return T.own_field(spec[1])
     if k == 'var':
-        return T.variable('@' + spec[1])
+        name = spec[1]
+        if type(name).__name__ == 'SymName':  # symbolic name (vf.sp): keep the '@name' token symbolic too
+            from vf.sp import SymTok
+            return T.variable(SymTok(name))
+        return T.variable('@' + name)
     if k == 'fa':
         return T.field_access(build(spec[1]), spec[2])
     if k == 'idx':
